@@ -17,7 +17,7 @@ func init() {
 		Modules: []string{"v2"},
 		Explanation: "Path rules on the streaming tokenizer and its callers: (R08.1) error flow: on every path from the reader call on which its error is neither nil nor end-of-input class, the first effect is `return nil, thatError`; the end-of-input test is an EOF classifier (a boolean combination of == io.EOF / io.ErrUnexpectedEOF only); in match a tokenizer error is returned with a zero Results before anything else, and MatchFrom passes match's results through; " +
 			"(R08.2) Match is a pure delegation to MatchFrom(bytes.NewReader(in)); (R08.3) the only call that consumes the reader is io.ReadFull (full window or end-of-input error, so fragmentation cannot show); (R08.4) the bytes left over after a window are copied to the front of the buffer and the next read continues exactly after them; " +
-			"(R08.5) the rune decoder is given the bytes beyond the window target (the 4 carry-over bytes), never a slice capped at the window. Necessary conditions for all inputs, fragmentations, pad widths and failure offsets; index arithmetic of the buffer is not otherwise decided.",
+			"(R08.5) the rune decoder is given the bytes beyond the window target (the 4 carry-over bytes), never a slice capped at the window; (R06.3) the tokenizer's boolean state is carried across buffer refills. Necessary conditions for all inputs, fragmentations, pad widths and failure offsets; index arithmetic of the buffer is not otherwise decided.",
 		Run: runC08,
 	})
 }
@@ -307,6 +307,8 @@ func runC08(c *Ctx) {
 	checkCarryOver(c, p, ts, read)
 	// ---- R08.5 decoder window --------------------------------------------------------------
 	checkDecoderWindow(c, p, ts, read)
+	// ---- R06.3 tokenizer state survives a buffer refill (padding moves text across refill boundaries)
+	checkFlagsSurviveRefill(c, p)
 }
 
 func dependsOnValue(v, target ssa.Value, depth int) bool {
